@@ -798,7 +798,7 @@ func (g *gen) listenerSeed() []Event {
 // nothing else happens in between: a resource that loses a contest is deleted and created again at once (state
 // cached per key must not survive the object); three minions contend for one path with key order different
 // from age order; an orphan route or minion is deleted and re-created.
-const nEpisodes = 13
+const nEpisodes = 14
 
 // episode: which < 0 picks one at random
 func (g *gen) episode(which int) []Event {
@@ -1016,6 +1016,35 @@ func (g *gen) episode(which int) []Event {
 			rt.Gen++
 			rt.Subpaths = []string{"/a/", "/a/y"}
 			up(rt, "episode-vsr-edit")
+		}
+	case 13:
+		// one hostname in two spellings: the custom resources' validators accept lower case only, so the older
+		// VirtualServer / TransportServer that writes the host with capitals is rejected and never owns anything
+		h := vh.Pick(r, hosts[:3])
+		H := strings.ToUpper(h[:1]) + h[1:3] + strings.ToUpper(h[3:4]) + h[4:]
+		ok := vh.Pick(r, []string{"vs", "vs", "ts"})
+		o := mk(ok, "ns1", "a", stamps[0])
+		if ok == "vs" {
+			o.Host = H
+		} else {
+			o.Host, o.LName, o.Proto = H, "tls-passthrough", "TLS_PASSTHROUGH"
+		}
+		up(o, "episode-capitals-older")
+		yk := vh.Pick(r, []string{"vs", "ing", "ts"})
+		y := mk(yk, "a-b", "b", stamps[len(stamps)-1])
+		switch yk {
+		case "vs":
+			y.Host = h
+		case "ing":
+			y.IngKind, y.Hosts = "regular", []string{h}
+		case "ts":
+			y.Host, y.LName, y.Proto = h, "tls-passthrough", "TLS_PASSTHROUGH"
+		}
+		up(y, "episode-lower-case-younger")
+		if r.Bool() {
+			o.Gen++
+			o.Host = h
+			up(o, "episode-capitals-corrected")
 		}
 	case 2:
 		// three minions on one path; the first in key order is the youngest
